@@ -47,7 +47,7 @@ fn check_for_address_zero(box_expression: Box<pt::Expression>) -> bool {
     {
         if let pt::Expression::Type(_, ty) = *func_call_box_expression {
             if let pt::Type::Address = ty {
-                if let pt::Expression::NumberLiteral(_, val, _) = &vec_expression[0] {
+                if let Some(pt::Expression::NumberLiteral(_, val, _)) = vec_expression.first() {
                     if val == "0" {
                         address_zero = true;
                     }
